@@ -462,6 +462,18 @@ def run(ctx: Ctx) -> None:
             check_history(ctx, prog, top, "corpus-" + name, sample=(i == 0 and name == "hoist"),
                           model=name == "hoist" or i % 3 == 0)
     t1 = time.time()
+    # -- 1b. values at rewrite time (own generator streams: the streams above stay what they were)
+    drng = random.Random(f"C09-degenerate-{ctx.seed}")
+    for i, (prog, top) in enumerate(hg.corpus_degenerate(ctx, drng)):
+        if ctx.out_of_time():
+            break
+        check_history(ctx, prog, top, "corpus-degenerate", model=i % 5 == 0)
+    for i in range(ctx.n(120, 3000)):
+        if ctx.out_of_time():
+            break
+        prog, top = hg.degenerate_history(ctx, drng)
+        check_history(ctx, prog, top, "random-degenerate", model=i % 4 == 0)
+    t1b = time.time()
     # -- 2. one-circuit programs
     N = ctx.n(300, 8000)
     rng = ctx.rng
@@ -508,7 +520,8 @@ def run(ctx: Ctx) -> None:
         prog, top = hg.random_history(ctx, hrng)
         nontriv = any(op[0] in ("swaps", "add") for op in prog)
         check_history(ctx, prog, top, "random", nontriv, sample=i == 0, model=i % 4 == 0)
-    ctx.extra["stream_wall_s"] = {"corpus": round(t1 - t0, 1), "one-circuit": round(t2 - t1, 1),
+    ctx.extra["stream_wall_s"] = {"corpus": round(t1 - t0, 1), "degenerate": round(t1b - t1, 1),
+                                  "one-circuit": round(t2 - t1b, 1),
                                   "histories": round(time.time() - t2, 1)}
 
 
